@@ -196,6 +196,19 @@ def consequence(e, pbf, counts, out):
         out.append((f"nominal_instance_cannot_be_parsed|{label}|pbf={int(pbf)}|{type(ex).__name__}", str(ex)))
         return
     payload = frame[6:-2]
+    # the same instance laid out by the reference (group counts written into the payload): one attribute per named field
+    try:
+        pl2 = C.build_payload(e, lambda x: max(counts, 1), max(counts, 1), lambda i: (3 * i + 1) % 200)
+        if pl2:
+            w2, key2 = C.walk_frame(e.mode, e.clsid, pl2, pbf)
+            if w2 is not None and key2 == e.key and not w2.short and w2.off == len(pl2) and w2.cfgitems is None:
+                m3 = UBXReader.parse(ref.frame(e.clsid[0], e.clsid[1], pl2), msgmode=e.mode, parsebitfield=pbf)
+                nf = sum(1 for f in w2.fields if f.exposed and not f.name.startswith("_HP"))
+                na = sum(1 for k in m3.__dict__ if not k.startswith("_"))
+                if na != nf:
+                    out.append((f"fields_hidden_under_one_name|{label}|pbf={int(pbf)}", f"payload instance: {nf} named fields, {na} attributes"))
+    except Exception as ex:  # noqa: BLE001
+        out.append((f"nominal_instance_cannot_be_parsed|{label}|pbf={int(pbf)}|{type(ex).__name__}", f"payload instance: {ex}"))
     if m2.identity != C.identity_of(e.clsid, payload):
         out.append((f"nominal_instance_identity|{label}", f"{m2.identity}"))
     if len(payload) == 0:
